@@ -20,62 +20,10 @@ use verif_harness::*;
 // ------------------------------------------------------------------------------- Known_C01 (href)
 // the href setter is the URL parser without a base: it inherits Known_C01 (same text as in c01.rs;
 // the Coq version is Model/KnownC01.v, compared through the request `known07 … href …`)
-fn cleaned(input: &str) -> Vec<char> {
-    input.trim_matches(|c: char| c <= ' ').chars().filter(|c| !matches!(c, '\t' | '\n' | '\r')).collect()
-}
-fn leading_scheme(t: &[char]) -> Option<String> {
-    if t.first().map_or(false, |c| c.is_ascii_alphabetic()) {
-        let mut s = String::new();
-        for &c in t {
-            if c.is_ascii_alphanumeric() || c == '+' || c == '-' || c == '.' {
-                s.push(c.to_ascii_lowercase());
-            } else if c == ':' {
-                return Some(s);
-            } else {
-                return None;
-            }
-        }
-    }
-    None
-}
-fn is_special_scheme(s: &str) -> bool {
-    matches!(s, "http" | "https" | "ws" | "wss" | "ftp" | "file")
-}
-fn has_drive_segment(t: &[char]) -> bool {
-    let is_end = |c: char| matches!(c, '/' | '\\' | '?' | '#');
-    (0..t.len()).any(|i| {
-        t[i].is_ascii_alphabetic()
-            && i + 1 < t.len()
-            && (t[i + 1] == ':' || t[i + 1] == '|')
-            && (i == 0 || is_end(t[i - 1]))
-            && (i + 2 == t.len() || is_end(t[i + 2]))
-    })
-}
-/// Known_C01 without a base: 0 = not known, 1..4 = class
+use verif_harness::known01::{has_drive_segment, is_special_scheme};
+/// Known_C01 without a base: 0 = not known, 1..4 = class (harness/src/known01.rs)
 fn known_c01_nobase(input: &str) -> u32 {
-    let t = cleaned(input);
-    let sch = leading_scheme(&t);
-    let eff = sch.clone().unwrap_or_default();
-    if eff == "file" {
-        return 1;
-    }
-    let rest: &[char] = match &sch {
-        Some(_) => {
-            let p = t.iter().position(|&c| c == ':').map(|p| p + 1).unwrap_or(0);
-            &t[p..]
-        }
-        None => &t[..],
-    };
-    if has_drive_segment(rest) {
-        return 2;
-    }
-    if !is_special_scheme(&eff) && t.contains(&'\\') {
-        return 3;
-    }
-    if t.windows(2).any(|w| w == [':', '@']) {
-        return 4;
-    }
-    0
+    verif_harness::known01::known_c01(None, input)
 }
 
 // ------------------------------------------------------------------------------- Known_C07
